@@ -20,7 +20,18 @@ def gen_workload(rng, root, tier, opts=None, big=False):
         # of the rotated memtables in between; ends in a process crash
         mem = int([kv for kv in opts.split(",") if kv.startswith("mem=")][0][4:])
         size = max(200, mem // rng.choice([4, 5, 6]))
-        for _ in range(rng.randint(8, 16)):
+        tiny_at = rng.randint(2, 8) if rng.random() < 0.35 else -1
+        for it in range(rng.randint(8, 16)):
+            if it == tiny_at:
+                # many tiny entries in one transaction (see the unstructured branch)
+                tx += 1
+                lines.append("e2 begin %d rw" % tx)
+                batch = []
+                for j in range(rng.choice([mem // 64, mem // 40, mem // 24])):
+                    lines.append("e2 set %d 74%04x %02x" % (tx, j, j & 255))
+                    batch.append(("set", "74%04x" % j, "%02x" % (j & 255)))
+                lines.append("e2 commit %d" % tx)
+                commits.append(batch)
             tx += 1
             vcount += 1
             k = rng.choice(KEYS + ["64", "65", "66"])
@@ -36,6 +47,21 @@ def gen_workload(rng, root, tier, opts=None, big=False):
     n = rng.randint(4, 10) if tier == "quick" else rng.randint(6, 18)
     for _ in range(n):
         r = rng.random()
+        if "mem=" in opts and rng.random() < 0.15:
+            # a transaction of very many tiny entries: its log record is small but its memtable footprint
+            # (one skiplist node per entry) is near or beyond a whole memtable; it must either be refused
+            # before it is logged or be applied
+            mem = int([kv for kv in opts.split(",") if kv.startswith("mem=")][0][4:])
+            tx += 1
+            lines.append("e2 begin %d rw" % tx)
+            batch = []
+            for j in range(rng.choice([mem // 64, mem // 40, mem // 24])):
+                k = "74%04x" % j
+                lines.append("e2 set %d %s %02x" % (tx, k, j & 255))
+                batch.append(("set", k, "%02x" % (j & 255)))
+            lines.append("e2 %s %d" % ("commitsync" if rng.random() < 0.35 else "commit", tx))
+            commits.append(batch)
+            continue
         if r < 0.62:
             tx += 1
             lines.append("e2 begin %d rw" % tx)
